@@ -1,5 +1,6 @@
 import RpylibModel.Basic.Proto
 import RpylibModel.Model.Grid
+import RpylibModel.Model.GridCtor
 open Rpylib Rpylib.Grid
 
 /-- requests:
@@ -7,6 +8,9 @@ open Rpylib Rpylib.Grid
   grid <axes [a;b]> <h> <origin> <k>     -> `<axes> <h> <origin> <truncations lo> <truncations hi>` after k refinements
   fixed <h> <nb> <dim>                   -> `<axis> <origin>`
   credit <l> <a> <h> <r> <0|1>           -> `<axis>`
+  linspace <a> <b> <n>                   -> `<list>`   (np.linspace(a, b, n))
+  uniform <l> <r> <h> <dim>              -> `<axes> <origin> <int(|l|/h)> <int(r/h)>` or `raises <int(|l|/h)> <int(r/h)>`
+                                            (CTMCUniformGrid.__init__ after compute_truncation returned (l, r))
 -/
 def step (t : List String) : String :=
   match t with
@@ -31,6 +35,18 @@ def step (t : List String) : String :=
   | ["credit", l, a, h, r, s] =>
     match parseRat? l, parseRat? a, parseRat? h, parseRat? r with
     | some l, some a, some h, some r => showRatList (creditAxis l a h r (s == "1"))
+    | _, _, _, _ => "bad-op"
+  | ["linspace", a, b, n] =>
+    match parseRat? a, parseRat? b, parseNat? n with
+    | some a, some b, some n => showRatList (linspace a b n)
+    | _, _, _ => "bad-op"
+  | ["uniform", l, r, h, dim] =>
+    match parseRat? l, parseRat? r, parseRat? h, parseNat? dim with
+    | some l, some r, some h, some dim =>
+      let counts := toString (uniformCountL l h) ++ " " ++ toString (uniformCountR r h)
+      match uniformCtor l r h dim with
+      | some g => showListList showRat g.axes ++ " " ++ toString g.origin ++ " " ++ counts
+      | none => "raises " ++ counts
     | _, _, _, _ => "bad-op"
   | _ => "bad-op"
 
